@@ -4,6 +4,8 @@ import os
 import time
 
 ROOT = os.path.dirname(os.path.dirname(os.path.abspath(__file__)))
+# where evidence/ and replays/ are written: /verif, unless a trial run (e.g. against a seeded tree) redirects its output
+OUT = os.environ.get('VERIF_OUT') or ROOT
 
 
 def load_known():
@@ -34,7 +36,7 @@ class Report:
         self.evaluations = 0
         self.rule = ''
         import glob
-        for f in (glob.glob(os.path.join(ROOT, 'replays', f'{prop}_*.json')) if clear_replays else []):
+        for f in (glob.glob(os.path.join(OUT, 'replays', f'{prop}_*.json')) if clear_replays else []):
             os.remove(f)
 
     def add_tlc(self, res, label):
@@ -51,8 +53,8 @@ class Report:
 
     def finish(self):
         """write evidence + replay files, print protocol lines, return exit code"""
-        os.makedirs(os.path.join(ROOT, 'evidence'), exist_ok=True)
-        os.makedirs(os.path.join(ROOT, 'replays'), exist_ok=True)
+        os.makedirs(os.path.join(OUT, 'evidence'), exist_ok=True)
+        os.makedirs(os.path.join(OUT, 'replays'), exist_ok=True)
         code = 0
         for fid, (n, text) in self.known.items():
             print(f'KNOWN-FINDING: property={self.prop} {fid}: {text} (seen {n}x)')
@@ -62,7 +64,7 @@ class Report:
                 continue
             seen.add(clause)
             path = os.path.join('replays', f'{self.prop}_{clause.replace(".", "_")}_{i}.json')
-            with open(os.path.join(ROOT, path), 'w') as f:
+            with open(os.path.join(OUT, path), 'w') as f:
                 json.dump(replay, f, indent=1, default=str)
             print(f'VIOLATION property={self.prop} replay={path}')
             print(f'  clause={clause}')
@@ -84,7 +86,7 @@ class Report:
                   assumptions=self.assumptions, wall_s=round(time.time() - self.t0, 2),
                   violations=len(self.violations),
                   known_findings={k: v[0] for k, v in self.known.items()})
-        with open(os.path.join(ROOT, 'evidence', f'{self.prop}.json'), 'w') as f:
+        with open(os.path.join(OUT, 'evidence', f'{self.prop}.json'), 'w') as f:
             json.dump(ev, f, indent=1, default=str)
         print(f'{self.prop} tier={self.tier} states={self.states} traces={self.traces} violations={len(self.violations)} '
               f'known={sum(v[0] for v in self.known.values())} wall={ev["wall_s"]}s exit={code}')
